@@ -141,7 +141,7 @@ def plan(tier, seed):
                       'streams; lists: all subsets of the reportable residues when there are <= %d of them, else singletons, '
                       'singleton complements and the full set; each list also with two non-existent entries appended, the empty and singleton lists also with near-miss entries '
                       '(real number under an absent chain id / another insertion code / +1000); residues of different chains with equal numbers that follow each other in the file; the '
-                      'list of every residue of the structure. non-trivial = distinct (input, list) where the list selects a '
+                      'list of every residue of the structure. also multi-conformation layouts, cut-outs with covalently coupled and non-covalently coupled sites, chains starting with Asp/Cys/His; for docked pairs and clusters every list with exactly one unlisted residue is also run with the chains written in reverse order (judged where the run without the option does not depend on the order). non-trivial = distinct (input, list) where the list selects a '
                       'proper non-empty subset of the reportable residues') % (6 if tier == 'quick' else 8),
                 bounds=dict(inputs=len(ins), max_full_subsets=6 if tier == 'quick' else 8), samples=[ins[0], ins[len(ins) // 2]])
 
